@@ -116,6 +116,8 @@ def protein(genome, ch):
 
 # ---- annotation collection -------------------------------------------------------------------------------------------
 def member_span(m):
+    if "span" in m:  # a variant collection, described by its span only
+        return tuple(m["span"])
     return span(m["children"])
 
 
